@@ -67,14 +67,23 @@ fn analyse(tok: &mut StatefulTokenizer<Rc<JapaneseDictionary>>, dict: &Rc<Japane
 }
 
 fn record_text(tr: &mut Trace, run: usize, dict: &Rc<JapaneseDictionary>, text: &str, switched: bool) {
+    record_text_v(tr, run, dict, text, switched, 0)
+}
+
+/// `variant` > 0: every tokenizer is created in mode C, given a reduced field request and only then switched to its mode
+/// (what a front end with a field list and a per-call mode does): 1 = surface + part of speech, 2 = nothing, 3 = surface only
+fn record_text_v(tr: &mut Trace, run: usize, dict: &Rc<JapaneseDictionary>, text: &str, switched: bool, variant: usize) {
     let r = catch(std::panic::AssertUnwindSafe(|| -> Result<Value, String> {
-        // the mode-C tokenizer is either fresh, or one that was used in mode A / B before (history must not matter)
-        let mut tc = StatefulTokenizer::new(dict.clone(), if switched { Mode::A } else { Mode::C });
+        let sub = match variant { 1 => Some(InfoSubset::SURFACE | InfoSubset::POS_ID), 2 => Some(InfoSubset::empty()), 3 => Some(InfoSubset::SURFACE), _ => None };
+        let mk = |m: Mode, extra: InfoSubset| { match sub { Some(s) => { let mut t = StatefulTokenizer::new(dict.clone(), Mode::C); t.set_subset(s | extra); t } None => StatefulTokenizer::new(dict.clone(), m) } };
+        // the mode-C tokenizer is either fresh, or one that was used in mode A / B before (history must not matter); its result is split on
+        // demand afterwards, so its field request names the split fields (a request without them leaves nothing to split with)
+        let mut tc = mk(if switched { Mode::A } else { Mode::C }, InfoSubset::SPLIT_A | InfoSubset::SPLIT_B);
         if switched { let _ = analyse(&mut tc, dict, Mode::B, "xy")?; }
         let (c, clist) = analyse(&mut tc, dict, Mode::C, text)?;
-        let mut ta = StatefulTokenizer::new(dict.clone(), Mode::A);
+        let mut ta = mk(Mode::A, InfoSubset::empty());
         let (a, _) = analyse(&mut ta, dict, Mode::A, text)?;
-        let mut tb = StatefulTokenizer::new(dict.clone(), Mode::B);
+        let mut tb = mk(Mode::B, InfoSubset::empty());
         let (b, _) = analyse(&mut tb, dict, Mode::B, text)?;
         let mut api = Vec::new();
         for i in 0..clist.len() {
@@ -85,7 +94,7 @@ fn record_text(tr: &mut Trace, run: usize, dict: &Rc<JapaneseDictionary>, text: 
                 api.push(json!({"i": i, "mode": mname, "returned": ret, "nodes": nodes}));
             }
         }
-        Ok(json!({"ev": "modes", "run": run, "text": cps(text), "switched": switched, "C": c, "A": a, "B": b, "api": api}))
+        Ok(json!({"ev": "modes", "run": run, "text": cps(text), "switched": switched, "variant": variant, "C": c, "A": a, "B": b, "api": api}))
     }));
     match r {
         Ok(Ok(v)) => tr.emit(v),
@@ -107,7 +116,9 @@ pub fn record(args: &[String]) -> i32 {
     let sys = vec![w("x", vec![], vec![]), w("y", vec![], vec![]), w("z", vec![], vec![]), w("あ", vec![], vec![]), w("𠮷", vec![], vec![]),
         w("xy", vec![(0, 0), (0, 1)], vec![]), w("xyz", vec![(0, 0), (0, 1), (0, 2)], vec![(0, 5), (0, 2)]), w("あx", vec![(0, 3), (0, 0)], vec![]), w("𠮷あ", vec![(0, 4), (0, 3)], vec![(0, 4), (0, 3)])];
     let usr = vec![w("zz", vec![], vec![]), w("xyzzz", vec![(0, 0), (0, 1), (0, 2), (1, 0)], vec![(0, 6), (1, 0)]), w("あxzz", vec![], vec![(0, 7), (1, 0)])];
-    let layers = vec![sys, usr];
+    // a second user dictionary with references to its own words: the words with the same numbers in the first user dictionary have other lengths
+    let usr2 = vec![w("あ𠮷", vec![], vec![]), w("zy", vec![], vec![]), w("zyあ𠮷", vec![(1, 1), (1, 0)], vec![(1, 1), (1, 0)]), w("xzyあ𠮷", vec![(0, 0), (1, 1), (1, 0)], vec![(0, 0), (1, 2)])];
+    let layers = vec![sys, usr, usr2];
     match load(&layers) {
         Ok(dict) => {
             tr.emit(json!({"ev": "world", "run": run + 1, "dict": world_json(&layers)}));
@@ -116,8 +127,10 @@ pub fn record(args: &[String]) -> i32 {
             for _ in 0..4 { let mut next = Vec::new(); for t in texts.iter().filter(|t| t.chars().count() < 4) { for c in letters { next.push(format!("{}{}", t, c)); } } next.sort(); next.dedup(); texts.extend(next); texts.sort(); texts.dedup(); }
             let cap = arg_u64(args, "--exhaustive-cap", 800) as usize;
             let step = (texts.len() / cap).max(1);
-            for (i, t) in texts.iter().enumerate() { if t.is_empty() || i % step != 0 { continue; } run += 1; record_text(&mut tr, run, &dict, t, i % 3 == 0); }
-            for t in ["xyzzz", "あxzz", "xyzzzあxzz", "ＸＹＺzz", "𠮷あxyz"] { run += 1; record_text(&mut tr, run, &dict, t, true); }
+            for (i, t) in texts.iter().enumerate() { if t.is_empty() || i % step != 0 { continue; } run += 1; record_text_v(&mut tr, run, &dict, t, i % 3 == 0, (i / step) % 4); }
+            for t in ["xyzzz", "あxzz", "xyzzzあxzz", "ＸＹＺzz", "𠮷あxyz", "zyあ𠮷", "xzyあ𠮷", "zyあ𠮷xyzzz", "ＸＺＹあ𠮷z"] {
+                for v in 0..4 { run += 1; record_text_v(&mut tr, run, &dict, t, v % 2 == 0, v); }
+            }
         }
         Err(e) => { eprintln!("MC dictionary failed: {}", e); return 2; }
     }
@@ -172,20 +185,34 @@ pub fn record(args: &[String]) -> i32 {
             a.push((1, 0));
             usr.push(W { key: key.clone(), head: key, a, b: vec![(0, s), (1, 0)] });
         }
-        let layers = vec![sys.clone(), usr.clone()];
+        // a second user dictionary: other base words first, then compounds of its own words and of system words
+        let mut usr2: Vec<W> = Vec::new();
+        usr2.push(W { key: "ええええ".into(), head: "ええええ".into(), a: vec![], b: vec![] });
+        usr2.push(W { key: "お".into(), head: "お".into(), a: vec![], b: vec![] });
+        for _ in 0..(1 + rng.below(3)) {
+            let s = rng.below(sys.len());
+            let own = rng.below(2);
+            let key = format!("{}{}", usr2[own].key, sys[s].key);
+            if usr2.iter().any(|x| x.key == key) { continue; }
+            let mut a: Vec<(usize, usize)> = vec![(1, own)];
+            if sys[s].a.is_empty() { a.push((0, s)); } else { a.extend(sys[s].a.clone()); }
+            usr2.push(W { key: key.clone(), head: key, a, b: vec![(1, own), (0, s)] });
+        }
+        { let key = "おええええ".to_string(); usr2.push(W { key: key.clone(), head: key, a: vec![(1, 1), (1, 0)], b: vec![(1, 1), (1, 0)] }); }
+        let layers = vec![sys.clone(), usr.clone(), usr2.clone()];
         let dict = match load(&layers) { Ok(d) => d, Err(_) => continue };
         tr.emit(json!({"ev": "world", "run": run + 1, "dict": world_json(&layers)}));
         for k in 0..ntexts {
             let mut t = String::new();
             for _ in 0..(1 + rng.below(4)) {
-                let w = if rng.chance(1, 4) { rng.pick(&usr).key.clone() } else { rng.pick(&sys).key.clone() };
+                let w = if rng.chance(1, 4) { rng.pick(&usr).key.clone() } else if rng.chance(1, 4) { rng.pick(&usr2).key.clone() } else { rng.pick(&sys).key.clone() };
                 // write it with other widths / case: the original text differs from the key in byte length
                 let w2: String = if rng.chance(1, 3) { w.chars().map(|c| match c { 'a' => 'Ａ', 'b' => 'B', 'c' => 'Ｃ', '1' => '１', o => o }).collect() } else { w };
                 t.push_str(&w2);
                 if rng.chance(1, 6) { t.push_str(rng.pick_str(&["。", "x", " "])); }
             }
             run += 1;
-            record_text(&mut tr, run, &dict, &t, k % 2 == 0);
+            record_text_v(&mut tr, run, &dict, &t, k % 2 == 0, (k / 2) % 4);
         }
     }
     let n = tr.finish();
